@@ -150,6 +150,9 @@ func (c *Ctx) Finish(verifDir string, seed int) int {
 		fmt.Printf("ERROR reading known findings: %v\n", err)
 		return 2
 	}
+	if timeBudgetHit.Load() && !c.included && len(c.ruleOrder) > 0 {
+		c.add(c.ruleOrder[0], "wall-clock limit", "-", Undecided, "an abstract run of this check was cut off by a wall-clock limit (120 s per run, MIDIVERIF_DEADLINE per check): the check is undecided, whatever the rule that started the run reported")
+	}
 	// floors
 	for _, id := range c.ruleOrder {
 		r := c.Rules[id]
